@@ -2,6 +2,7 @@ package checks
 
 import (
 	"fmt"
+	"go/token"
 	"go/types"
 	"os"
 	"sort"
@@ -342,6 +343,7 @@ func runC10(c *Ctx) {
 	// (no minimum for E1.nil: whether a possibly-nil dereference exists at all depends on how the code is written)
 	R.Require("S.accept-loop", 6, "")
 	R.Require("S.role-closure", 40, "")
+	c.handlerSetRule()
 	R.Explain = "Panic freedom of everything a TCP client can drive: the per-connection roles of both servers are interpreted abstractly from the state their constructors establish " +
 		"(newConnection → reader / write, newSessionManager → run, attachment newConnection → run with the default data handler, stream handlers and file event explored through dynamic dispatch), for arbitrary Read results and byte contents; " +
 		"callees in other packages, goroutine bodies and targets of unresolved dynamic calls are analysed as entries with arbitrary arguments until the set is closed, together with all decoder entry points (handlers that parse every body). " +
@@ -352,4 +354,158 @@ func runC10(c *Ctx) {
 // DebugSeq runs constructor → method (debug aid).
 func (c *Ctx) DebugSeq(pkg, ctor, typ, method string, peel bool) *E1Result {
 	return c.runSeq(seqEntry{c.P.Func(pkg, ctor), c.P.Method(pkg, typ, method), peel})
+}
+
+// handlerSetRule: the writer calls methods of msg.Handler (HasReply, ReplyBody, ...) on every message it takes from its
+// channels without testing it; the abstract interpretation of the writer role takes received messages as well formed.
+// That assumption is discharged here, on the sending side: every *Message the reader sends to a channel the writer
+// consumes has had its Handler field set from a successful handler-table lookup (comma-ok true, or the value tested
+// against nil) on every path to the send.
+func (c *Ctx) handlerSetRule() {
+	R := c.R
+	R.Rules["S.handler-set"] = "every message the reader hands to the writer (message channel, re-request channel) carries a handler: on every path to the send its Handler field was assigned the value of a handler-table lookup that succeeded (ok true / value not nil) - a frame with an unsupported ID never reaches the writer, whose reply path calls the handler without a nil test (a nil handler there ends the process)"
+	reader := c.P.Method("service", "connection", "reader")
+	if reader == nil {
+		R.Fatal("anchor connection.reader not found")
+		return
+	}
+	var guarded func(m ssa.Value, at ssa.Instruction, depth int) (bool, string)
+	guarded = func(m ssa.Value, at ssa.Instruction, depth int) (bool, string) {
+		fn := at.Parent()
+		why := "no assignment of the Handler field from a handler-table lookup dominates the hand-over"
+		for _, b := range fn.Blocks {
+			for _, ins := range b.Instrs {
+				st, isSt := ins.(*ssa.Store)
+				if !isSt {
+					continue
+				}
+				fa, isFA := st.Addr.(*ssa.FieldAddr)
+				if !isFA || fa.X != m {
+					continue
+				}
+				stt := fa.X.Type().Underlying().(*types.Pointer).Elem().Underlying().(*types.Struct)
+				if stt.Field(fa.Field).Name() != "Handler" {
+					continue
+				}
+				if !(b.Dominates(at.Block())) {
+					continue
+				}
+				v := st.Val
+				for {
+					if mi, ok := v.(*ssa.MakeInterface); ok {
+						v = mi.X
+						continue
+					}
+					if ci, ok := v.(*ssa.ChangeInterface); ok {
+						v = ci.X
+						continue
+					}
+					break
+				}
+				// form 1: value, ok := table[key]; under ok
+				if ex, isEx := v.(*ssa.Extract); isEx && ex.Index == 0 {
+					if lk, isLk := ex.Tuple.(*ssa.Lookup); isLk && lk.CommaOk {
+						for _, b2 := range fn.Blocks {
+							iff, isIf := b2.Instrs[len(b2.Instrs)-1].(*ssa.If)
+							if !isIf {
+								continue
+							}
+							if ex1, isEx1 := iff.Cond.(*ssa.Extract); isEx1 && ex1.Tuple == ssa.Value(lk) && ex1.Index == 1 && edgeDominates(b2, 0, at.Block()) {
+								return true, ""
+							}
+						}
+						why = "the Handler field is assigned the result of the table lookup at " + c.P.RelPos(st.Pos()) + " whether or not the lookup succeeded: for an unsupported ID it is nil"
+					}
+				}
+				// form 2: the assigned value is tested against nil on the way
+				for _, b2 := range fn.Blocks {
+					iff, isIf := b2.Instrs[len(b2.Instrs)-1].(*ssa.If)
+					if !isIf {
+						continue
+					}
+					cmp, isCmp := iff.Cond.(*ssa.BinOp)
+					if !isCmp || (cmp.Op != token.EQL && cmp.Op != token.NEQ) {
+						continue
+					}
+					x, y := cmp.X, cmp.Y
+					if k, isK := x.(*ssa.Const); isK && k.IsNil() {
+						x, y = y, x
+					}
+					if k, isK := y.(*ssa.Const); !isK || !k.IsNil() || (x != v && x != st.Val) {
+						continue
+					}
+					si := 0
+					if cmp.Op == token.EQL {
+						si = 1
+					}
+					if edgeDominates(b2, si, at.Block()) {
+						return true, ""
+					}
+				}
+			}
+		}
+		// the message is a parameter: decided at the call sites
+		if prm, isP := m.(*ssa.Parameter); isP && depth < 2 {
+			idx := -1
+			for i, q := range fn.Params {
+				if q == prm {
+					idx = i
+				}
+			}
+			nSites, all := 0, true
+			w2 := ""
+			for _, g := range c.RepoFuncs("service") {
+				for _, b := range g.Blocks {
+					for _, ins := range b.Instrs {
+						ci, isCI := ins.(ssa.CallInstruction)
+						if !isCI || ci.Common().StaticCallee() != fn || idx >= len(ci.Common().Args) {
+							continue
+						}
+						nSites++
+						if ok, w := guarded(ci.Common().Args[idx], ins, depth+1); !ok {
+							all, w2 = false, w
+						}
+					}
+				}
+			}
+			if nSites > 0 && all {
+				return true, ""
+			}
+			if nSites > 0 {
+				why = w2
+			}
+		}
+		return false, why
+	}
+	n := 0
+	for _, f := range c.familyOf(reader) {
+		for _, b := range f.Blocks {
+			for _, ins := range b.Instrs {
+				s, isS := ins.(*ssa.Send)
+				if !isS {
+					continue
+				}
+				owner, field, isF := fieldLoad(s.Chan)
+				if !isF || owner != "connection" || (field != "msgChan" && field != "reissuePackChan") {
+					continue
+				}
+				if pn, ok := derefNamed(s.X.Type()); !ok || pn != "Message" {
+					continue
+				}
+				n++
+				ok, why := guarded(s.X, s, 0)
+				st := report.Discharged
+				if !ok {
+					st = report.Violated
+				} else {
+					why = ""
+				}
+				R.Add("S.handler-set", fmt.Sprintf("%s / %s", shortFn(f), c.constructOf(f, s)), c.P.RelPos(s.Pos()), st, why)
+			}
+		}
+	}
+	if n == 0 {
+		R.Fatal("S.handler-set: no send of a *Message on the message / re-request channel found in the reader family (anchor)")
+	}
+	R.Require("S.handler-set", 2, "")
 }
